@@ -183,7 +183,7 @@ class C25(Prop):
                 "out": out if kind in ("wf", "trailing") else None, "code": code}
 
     def gen(self, rng, tier):
-        k = {"quick": 1, "thorough": 5, "extended": 2}[tier]
+        k = {"quick": 1, "thorough": 3, "extended": 2}[tier]
         cases = []
         for _ in range(150 * k):
             cases.append({"f": "quote", "s": hostile(rng)})
@@ -207,13 +207,13 @@ class C25(Prop):
             cases.append({"f": "template", "env": self._env(rng)})
         for _ in range(200 * k):
             cases.append(self._gen_frame(rng))
-        nrun = {"quick": 20, "thorough": 120, "extended": 40}[tier]
+        nrun = {"quick": 20, "thorough": 60, "extended": 40}[tier]
         for conn in ("local", "base", "qm"):
             for _ in range(nrun):
                 cases.append({"f": "run", "conn": conn, "args": [hostile(rng) for _ in range(rng.randrange(0, 4))],
                               "env": self._env(rng), "wd": rng.choice([None, self._wdname(rng)]),
                               "rc": rng.choice([0, 0, 0, 1, 3, 255])})
-        nout = {"quick": 5, "thorough": 30, "extended": 10}[tier]
+        nout = {"quick": 5, "thorough": 15, "extended": 10}[tier]
         for conn in ("local", "base"):
             for _ in range(nout):
                 cases.append({"f": "out", "conn": conn, "seed": rng.randrange(10**9),
@@ -221,7 +221,7 @@ class C25(Prop):
                                                 ([1 << 20] if tier != "quick" else [])),
                               "kind": rng.choice(["text", "text", "ws", "uni"]), "nl": rng.random() < 0.5,
                               "rc": rng.choice([0, 1, 42, 255])})
-        nseq = {"quick": 6, "thorough": 30, "extended": 9}[tier]
+        nseq = {"quick": 6, "thorough": 18, "extended": 9}[tier]
         for j in range(nseq):
             steps = []
             for _ in range(rng.randrange(2, 6)):
